@@ -93,6 +93,8 @@ def free_layouts(stmt, rng, limit):
                     continue   # do not cut a doubled quote in two
                 splits.append(([head(stmt) + pre + "&", "&" + post], []))
                 splits.append(([head(stmt) + pre + "&", "   &" + post], []))
+                # comment and blank lines between the two halves of a continued literal are comment lines, not literal text
+                splits.append(([head(stmt) + pre + "&", "! it's a comment & more", "", "  &" + post], ["! it's a comment & more"]))
     # 3. three-way splits
     if len(toks) >= 3:
         for i, j in itertools.combinations(range(1, len(toks)), 2):
